@@ -158,6 +158,356 @@ class Delete(Contract):
         return [('valid-one-hot', is_onehot(r))]
 
 
+class MultiSubstitute(Contract):
+    """C01: multisubstitute equals the sequential substitution of each motif `spacing` positions
+    after the previous one ends; any span not wholly inside (or a negative spacing) is rejected."""
+    qualname = 'tangermeme.ersatz.multisubstitute'
+    props = ('C01',)
+
+    def configs(self):
+        return [dict(k=k, motif=m, spacing=sp, start=st) for k in (1, 2, 3) for m in ('tensor', 'str')
+                for sp in ('int', 'list') for st in ('int', 'none')]
+
+    def make_args(self, cfg, A):
+        X = A.onehot('X', 3)
+        A.assume(X.shape[1] >= 2)
+        k = cfg['k']
+        kw = {}
+        motifs = []
+        if cfg['motif'] == 'str':
+            n = z3.Int('alphabet.n')
+            A.assume(n >= 1)
+            kw['alphabet'] = Opaque('alphabet', 'alphabet', {'n': n})
+        for i in range(k):
+            if cfg['motif'] == 'tensor':
+                motifs.append(A.onehot('motif%d' % i, 3))
+            else:
+                m = SStr('motif%d' % i)
+                A.assume(m.length >= 0)
+                q = z3.Int('cq')
+                A.assume(z3.ForAll([q], And(m.code(q) >= -2, m.code(q) < n), patterns=[m.code(q)]))
+                motifs.append(m)
+        spacing = A.int('spacing') if cfg['spacing'] == 'int' else [A.int('spacing%d' % i) for i in range(k - 1)]
+        start = A.int('start') if cfg['start'] == 'int' else None
+        return [X, motifs, spacing], dict(start=start, **kw)
+
+    sub = Substitute()
+
+    def plan(self, a):
+        """(list of per-motif argument namespaces for substitute, list of starts)"""
+        from vf.contract import NS
+        k = len(a.motifs)
+        sp = a.spacing if isinstance(a.spacing, list) else [a.spacing] * (k - 1)
+        lens = [motif_tensor(NS(motif=m, alphabet=a.alphabet)).shape[2] for m in a.motifs]
+        L = a.X.shape[2]
+        if a.start is None:
+            total = sum(sp) + sum(lens)
+            s0 = O.floordiv(L, 2) - O.floordiv(total, 2)
+        else:
+            s0 = a.start
+        starts = [s0]
+        for i in range(k - 1):
+            starts.append(starts[-1] + lens[i] + sp[i])
+        return sp, lens, starts
+
+    def rejects(self, a, cfg):
+        from vf.contract import NS
+        sp, lens, starts = self.plan(a)
+        ok = [s >= 0 for s in sp]
+        X = a.X
+        for m, s in zip(a.motifs, starts):
+            ns = NS(X=X, motif=m, start=s, alphabet=a.alphabet)
+            ok.append(Not(self.sub.rejects(ns, {})))
+        return Not(And(*ok))
+
+    def accepts(self, a, cfg):
+        # the pinned guard additionally refuses spacing >= L, which never yields a wrong result;
+        # with every span inside such a spacing is impossible for k >= 2 non-empty motifs anyway
+        sp, lens, starts = self.plan(a)
+        return And(Not(self.rejects(a, cfg)), *[s < a.X.shape[2] for s in sp])
+
+    def result(self, a, cfg):
+        from vf.contract import NS
+        sp, lens, starts = self.plan(a)
+        X = a.X
+        for m, s in zip(a.motifs, starts):
+            X = self.sub.result(NS(X=X, motif=m, start=s, alphabet=a.alphabet), {})
+        return X
+
+    def post(self, a, r, cfg):
+        return [('valid-one-hot', is_onehot(r))]
+
+
+class Randomize(Contract):
+    """C01: randomize alters only [start, end); every output is a valid one-hot encoding of the
+    input's length; a span not wholly inside is rejected; the input is not modified.  The pinned
+    guard also refuses end == L: in that gap an error or the exact behaviour both satisfy the
+    contract (DESIGN 2.3)."""
+    qualname = 'tangermeme.ersatz.randomize'
+    props = ('C01',)
+
+    def configs(self):
+        return [dict(rs=r) for r in ('int', 'rng', 'none')]
+
+    def make_args(self, cfg, A):
+        X = A.onehot('X', 3)
+        A.assume(X.shape[1] >= 2)
+        probs = A.tensor('probs', 2, 'real')
+        rs = {'int': lambda: A.int('seed'), 'none': lambda: None,
+              'rng': lambda: Opaque('rng', 'rng', {'tape': A.int('tape'), 'pos': A.int('pos0', lo=0), 'types': ['numpy.random.RandomState']})}[cfg['rs']]()
+        return [X, A.int('start'), A.int('end')], dict(probs=probs, n=A.int('n', lo=1), random_state=rs)
+
+    def probs_ok(self, a):
+        P, X = a.probs, a.X
+        in01 = Not(Or(O.exists_box(P.shape, lambda *i: P.elem(*i) < 0), O.exists_box(P.shape, lambda *i: P.elem(*i) > 1)))
+        return And(in01, z3.Bool('probs.valid') if O.any_sym(*P.shape) or True else True, O.eq(P.shape[1], X.shape[1]),
+                   Or(O.eq(P.shape[0], 1), O.eq(P.shape[0], X.shape[0])))
+
+    def rejects(self, a, cfg):
+        L = a.X.shape[2]
+        return Not(And(0 <= a.start, a.start < a.end, a.end <= L, self.probs_ok(a)))
+
+    def accepts(self, a, cfg):
+        L = a.X.shape[2]
+        return And(0 <= a.start, a.start < a.end, a.end < L, self.probs_ok(a))
+
+    def tape_pos(self, a):
+        rs = a.random_state
+        if isinstance(rs, Opaque):
+            return rs.attrs['tape'], rs.attrs.get('_pos0', rs.attrs['pos'])
+        if rs is None:
+            return None, 0
+        return rs, 0
+
+    def result(self, a, cfg):
+        from contracts.utils_c import RNDOH
+        X, s, e = a.X, a.start, a.end
+        tape, pos0 = self.tape_pos(a)
+        if tape is None:
+            return NotImplemented
+        return spec_tensor([X.shape[0], a.n, X.shape[1], X.shape[2]],
+                           lambda b, j, c, p: ite(And(s <= p, p < e),
+                                                  ite(O.eq(c, RNDOH(O.to_z3(tape), O.to_z3(pos0 + j), O.to_z3(b), O.to_z3(p - s))), 1, 0), X[b, c, p]))
+
+    def post(self, a, r, cfg):
+        X, s, e = a.X, a.start, a.end
+        out = [('shape', And(*[O.eq(x, y) for x, y in zip(r.shape, [X.shape[0], a.n, X.shape[1], X.shape[2]])]))]
+        out.append(('outside-region-identical', O.forall(r.shape, lambda b, j, c, p: Implies(Not(And(s <= p, p < e)), O.eq(r[b, j, c, p], X[b, c, p])))))
+        out.append(('valid-one-hot', is_onehot(r, ohe_dim=2)))
+        return out
+
+    def loops(self):
+        from vf.world import defined_loop
+        from vf.values import StackList
+        from contracts.utils_c import RNDOH
+
+        def state(fr):
+            env = fr.env
+            rs = env['random_state']
+            if '_pos0' not in rs.attrs:
+                rs.attrs['_pos0'] = rs.attrs['pos']
+            return env['X'], env['start'], env['end'], rs
+
+        def rands(fr, it):
+            X, s, e, rs = state(fr)
+            tape, pos0 = rs.attrs['tape'], rs.attrs['_pos0']
+            V = spec_tensor([it, X.shape[0], X.shape[1], X.shape[2]],
+                            lambda j, b, c, p: ite(And(s <= p, p < e),
+                                                   ite(O.eq(c, RNDOH(O.to_z3(tape), O.to_z3(pos0 + j), O.to_z3(b), O.to_z3(p - s))), 1, 0), X[b, c, p]))
+            return StackList(it, [V])
+
+        def rng_state(fr, v, it):
+            X, s, e, rs = state(fr)
+            rs.attrs['pos'] = rs.attrs['_pos0'] + it
+            # range facts of the draws made so far
+            q0, q1, qj = z3.Ints('rq0 rq1 rqj')
+            tape, pos0 = O.to_z3(rs.attrs['tape']), O.to_z3(rs.attrs['_pos0'])
+            fr.ctx.assume(z3.ForAll([qj, q0, q1], z3.Implies(z3.And(qj >= 0, qj < it),
+                                                            z3.And(RNDOH(tape, pos0 + qj, q0, q1) >= 0, RNDOH(tape, pos0 + qj, q0, q1) < O.to_z3(X.shape[1])))))
+            return rs
+
+        def extra(E, fr):
+            rs = E.random_state
+            p0 = rs.attrs.get('_pos0', rs.attrs['pos'])
+            P, X = E.probs, E.X
+            # a completed iteration means the generator accepted the probabilities and substitute
+            # accepted the drawn motif
+            passed = And(z3.Bool('probs.valid'), O.eq(P.shape[1], X.shape[1]), Or(O.eq(P.shape[0], 1), O.eq(P.shape[0], X.shape[0])))
+            return [('rng-position', O.eq(rs.attrs['pos'], p0 + E.it)), ('iterations-passed-validation', Implies(E.it >= 1, passed))]
+        spec = defined_loop({'X_rands': rands}, extra=extra, extra_mutated=['random_state'])
+        spec.abstract['random_state'] = rng_state
+        return {1: spec}
+
+
+class Shuffle(Contract):
+    """C02: inside [start, end) every output is a permutation of the input region (hence the same
+    number of each character, Lean lemma sum_perm), outside it is identical to the input; the result
+    is a deterministic function of (input, region, n, seed); the input is not modified; a region not
+    inside the sequence is rejected."""
+    qualname = 'tangermeme.ersatz.shuffle'
+    props = ('C02',)
+
+    def configs(self):
+        return [dict(rs=r, end=e) for r in ('int', 'rng', 'none') for e in ('nonneg', 'neg')]
+
+    def make_args(self, cfg, A):
+        from vf.world import make_rng
+        X = A.onehot('X', 3)
+        A.assume(X.shape[1] >= 2)
+        end = A.int('end')
+        A.assume(end >= 0 if cfg['end'] == 'nonneg' else end < 0)
+        rs = {'int': lambda: A.int('seed'), 'none': lambda: None,
+              'rng': lambda: Opaque('rng', 'rng', {'tape': A.int('tape'), 'pos': A.int('pos0', lo=0), 'types': ['numpy.random.RandomState']})}[cfg['rs']]()
+        return [X], dict(start=A.int('start'), end=end, n=A.int('n', lo=1), random_state=rs)
+
+    def window(self, a):
+        L = a.X.shape[2]
+        return a.start, ite(a.end < 0, L + 1 + a.end, a.end)
+
+    def rejects(self, a, cfg):
+        s, e = self.window(a)
+        return Not(And(0 <= s, s < e, e <= a.X.shape[2]))
+
+    def tape_pos(self, a, cfg):
+        rs = a.random_state
+        if isinstance(rs, Opaque):
+            return rs.attrs['tape'], rs.attrs['_pos0'] if '_pos0' in rs.attrs else rs.attrs['pos']
+        if rs is None:
+            return None, 0
+        return rs, 0
+
+    def result(self, a, cfg):
+        from vf.world import PERM
+        X = a.X
+        s, e = self.window(a)
+        tape, pos0 = self.tape_pos(a, cfg)
+        if tape is None:
+            return NotImplemented   # unseeded: nothing is claimed about which permutation is used
+        return spec_tensor([X.shape[0], a.n, X.shape[1], X.shape[2]],
+                           lambda b, j, c, p: ite(And(s <= p, p < e),
+                                                  X[b, c, s + PERM(O.to_z3(tape), O.to_z3(pos0 + j), O.to_z3(e - s), O.to_z3(p - s))], X[b, c, p]))
+
+    def post(self, a, r, cfg):
+        X = a.X
+        s, e = self.window(a)
+        out = [('shape', And(*[O.eq(x, y) for x, y in zip(r.shape, [X.shape[0], a.n, X.shape[1], X.shape[2]])]))]
+        out.append(('outside-region-identical', O.forall(r.shape, lambda b, j, c, p: Implies(Not(And(s <= p, p < e)), O.eq(r[b, j, c, p], X[b, c, p])))))
+        return out
+
+    def loops(self):
+        from vf.world import PERM, defined_loop
+        from vf.values import StackList
+
+        def state(fr):
+            env = fr.env
+            rs = env['random_state']
+            if '_pos0' not in rs.attrs:
+                rs.attrs['_pos0'] = rs.attrs['pos']
+            return env['X'], env['start'], env['end'], rs
+
+        def shufs(fr, it):
+            X, s, e, rs = state(fr)
+            tape, pos0 = rs.attrs['tape'], rs.attrs['_pos0']
+            V = spec_tensor([it, X.shape[0], X.shape[1], X.shape[2]],
+                            lambda j, b, c, p: ite(And(s <= p, p < e),
+                                                   X[b, c, s + PERM(O.to_z3(tape), O.to_z3(pos0 + j), O.to_z3(e - s), O.to_z3(p - s))], X[b, c, p]))
+            return StackList(it, [V])
+
+        def rng_state(fr, it):
+            X, s, e, rs = state(fr)
+            rs.attrs['pos'] = rs.attrs['_pos0'] + it
+            return rs
+
+        def extra(E, fr):
+            rs = E.random_state
+            p0 = rs.attrs.get('_pos0', rs.attrs['pos'])
+            return [('rng-position', O.eq(rs.attrs['pos'], p0 + E.it))]
+        spec = defined_loop({'X_shufs': shufs}, extra=extra, extra_mutated=['random_state'])
+        spec.abstract['random_state'] = lambda fr, v, it: rng_state(fr, it)
+        return {1: spec}
+
+
+def dn_value(region, n, seed):
+    """assumed: _dinucleotide_shuffle(region, n_shuffles=n, random_state=seed) is a function DN of
+    the region's content, n and the seed, of shape (n, alphabet, width)"""
+    from vf.world import row_lambda
+    A_, W = region.shape[0], region.shape[1]
+    arr, dims = row_lambda(region.unsqueeze(0), 0)
+    f = z3.Function('DN', arr.sort(), z3.IntSort(), z3.IntSort(), z3.IntSort(), z3.IntSort(), z3.IntSort(), z3.IntSort(), z3.IntSort(), z3.IntSort())
+    return spec_tensor([n, A_, W], lambda j, c, p: f(arr, O.to_z3(A_), O.to_z3(W), O.to_z3(n), O.to_z3(seed), O.to_z3(j), O.to_z3(c), O.to_z3(p)))
+
+
+class InnerDinucleotideShuffle(Contract):
+    """ersatz._dinucleotide_shuffle as seen from dinucleotide_shuffle — ASSUMED (the Euler walk is
+    out of deductive reach, DESIGN 4.5; bounded layer C02 enumerates it): returns DN(region, n, seed)
+    or raises (all shuffles identical)."""
+    qualname = 'tangermeme.ersatz._dinucleotide_shuffle'
+    props = ('C02',)
+    assumed = True
+
+    def accepts(self, a, cfg):
+        return False
+
+    def result(self, a, cfg):
+        if a.random_state is None:
+            return NotImplemented
+        return dn_value(a.X, a.n_shuffles, a.random_state)
+
+    def fresh_result(self, a, cfg, fr):
+        return dn_value(a.X, a.n_shuffles, O.fresh_int('unseeded'))
+
+
+class DinucleotideShuffle(Contract):
+    """C02 (deductive part): all positions outside the region are identical to the input, example i
+    is shuffled with seed random_state + i (so the result is a deterministic function of (input,
+    region, n, seed) and independent of the other examples), the input is not modified.
+    The composition / never-stranded claims about the walk are bounded (bounded/C02.py)."""
+    qualname = 'tangermeme.ersatz.dinucleotide_shuffle'
+    props = ('C02',)
+
+    def make_args(self, cfg, A):
+        X = A.onehot('X', 3)
+        A.assume(X.shape[1] >= 2)
+        return [X], dict(start=A.int('start'), end=A.int('end'), n=A.int('n', lo=1), random_state=A.int('seed'))
+
+    def region(self, a):
+        from vf.tensor import norm_slice
+        return norm_slice(a.start, a.end, a.X.shape[2])
+
+    def accepts(self, a, cfg):
+        return False   # the inner shuffle may refuse low-diversity sequences
+
+    def result(self, a, cfg):
+        X = a.X
+        lo, ln = self.region(a)
+
+        def elem(b, j, c, p):
+            reg = spec_tensor([X.shape[1], ln], lambda c2, p2: X[b, c2, lo + p2])
+            return ite(And(lo <= p, p < lo + ln), dn_value(reg, a.n, a.random_state + b)[j, c, p - lo], X[b, c, p])
+        return spec_tensor([X.shape[0], a.n, X.shape[1], X.shape[2]], elem)
+
+    def post(self, a, r, cfg):
+        X = a.X
+        lo, ln = self.region(a)
+        return [('outside-region-identical', O.forall(r.shape, lambda b, j, c, p: Implies(Not(And(lo <= p, p < lo + ln)), O.eq(r[b, j, c, p], X[b, c, p]))))]
+
+    def loops(self):
+        from vf.world import defined_loop
+        from vf.values import StackList
+        from vf.tensor import norm_slice
+
+        def shufs(fr, it):
+            env = fr.env
+            X, n, seed = env['X'], env['n'], env['random_state']
+            lo, ln = norm_slice(env['start'], env['end'], X.shape[2])
+
+            def elem(b, j, c, p):
+                reg = spec_tensor([X.shape[1], ln], lambda c2, p2: X[b, c2, lo + p2])
+                return ite(And(lo <= p, p < lo + ln), dn_value(reg, n, seed + b)[j, c, p - lo], X[b, c, p])
+            return StackList(it, [spec_tensor([it, n, X.shape[1], X.shape[2]], elem)])
+        return {1: defined_loop({'X_shufs': shufs})}
+
+
 def register(world):
-    for c in (Substitute(), Insert(), Delete()):
+    for c in (Substitute(), Insert(), Delete(), MultiSubstitute(), Randomize(), Shuffle(), InnerDinucleotideShuffle(), DinucleotideShuffle()):
         world.register(c)
